@@ -353,7 +353,8 @@ class Check:
             return 0
         os.makedirs(os.path.join(VERIF, "replays", self.prop), exist_ok=True)
         seen = set()
-        for kind, what, replay, found in self.violations:
+        # violations with a concrete failing input first
+        for kind, what, replay, found in sorted(self.violations, key=lambda v: not v[3]):
             body = {"property": self.prop, "kind": kind, "what": what, "seed": self.seed, "tier": self.tier, "replay": replay,
                     "replay_cmd": f"cd /verif && ./check {self.prop} --replay <this file>"}
             h = hashlib.sha1(json.dumps(body, sort_keys=True, default=str).encode()).hexdigest()[:12]
